@@ -26,8 +26,13 @@ def gen_cases(rng, tier, count=None):
         if i % 3 == 2:
             a = C.ALGOS[(i // 3) % len(C.ALGOS)]
             kind = "ulps" if (a == "Zooming" and rng.random() < 0.4) or rng.random() < 0.05 else None
-            c = gen.algo_case(rng, a, tier, box_kind=kind,
-                              n_choices=[100, 150, 200, 300] if tier == "quick" else [100, 200, 400, 800])
+            cheap = a in ("SOO", "DOO", "DOO_delta", "SequOOL", "StroquOOL", "StoSOO", "Zooming")
+            nch = [100, 150, 200, 300] if tier == "quick" else [100, 200, 400, 800]
+            if cheap:
+                nch = nch + [500, 700, 1000, 1300]  # some schedules only reach their rare branches for larger budgets
+            c = gen.algo_case(rng, a, tier, box_kind=kind, n_choices=nch)
+            if cheap and rng.random() < 0.4:
+                c["n"] = c["T"] = int(rng.integers(100, 1500))
             if a == "Zooming":
                 c["params"] = {"nu": float(10 ** rng.uniform(-0.5, 1.5)), "rho": float(rng.uniform(0.4, 0.95))}
                 c["T"] = c["n"]
